@@ -62,6 +62,9 @@ type Config struct {
 	// PermitsFirst renders `permits` before `related` in every class (member order
 	// is free in OPL)
 	PermitsFirst bool `json:"permits_first,omitempty"`
+	// AnnotateTraverse renders traverse parameters with a type annotation (the first
+	// declared type of the traversed relation)
+	AnnotateTraverse bool `json:"annotate_traverse,omitempty"`
 }
 
 type SetRef struct {
@@ -251,10 +254,16 @@ func (e *Expr) opl(full bool, parent ExprKind, top bool) string {
 	case ExPermits:
 		return fmt.Sprintf("this.permits.%s(ctx)", ref("permits", e.Rel))
 	case ExTraverse:
-		if e.ViaPermits {
-			return fmt.Sprintf("this.related.%s.traverse((p) => p.permits.%s(ctx))", ref("traverse-rel", e.Rel), ref("traverse-computed", e.Computed))
+		param := "(p)"
+		if oplParamType != nil {
+			if ty := oplParamType(e.Rel); ty != "" {
+				param = "(p: " + ty + ")"
+			}
 		}
-		return fmt.Sprintf("this.related.%s.traverse((p) => p.related.%s.includes(ctx.subject))", ref("traverse-rel", e.Rel), ref("traverse-computed", e.Computed))
+		if e.ViaPermits {
+			return fmt.Sprintf("this.related.%s.traverse(%s => p.permits.%s(ctx))", ref("traverse-rel", e.Rel), param, ref("traverse-computed", e.Computed))
+		}
+		return fmt.Sprintf("this.related.%s.traverse(%s => p.related.%s.includes(ctx.subject))", ref("traverse-rel", e.Rel), param, ref("traverse-computed", e.Computed))
 	case ExNot:
 		c := e.Children[0]
 		s := c.opl(full, ExNot, false)
@@ -306,12 +315,29 @@ func typeOPL(ts []TypeRef) string {
 	return "(" + strings.Join(parts, " | ") + ")[]"
 }
 
+// oplParamType, when set (by ToOPL, for the class being rendered), gives the type
+// annotation of a traverse parameter: TypeScript would allow
+// `traverse((p: Folder) => ...)`. If the parser accepts the annotation, what it
+// accepts has to hold at check time like everything else.
+var oplParamType func(rel string) string
+
 func (c *Config) ToOPL() string {
 	full := c.Enc != EncOPLMin
+	defer func() { oplParamType = nil }()
 	var b strings.Builder
 	b.WriteString("import { Namespace, Context, SubjectSet } from \"@ory/keto-namespace-types\"\n\n")
 	for _, n := range c.NS {
 		fmt.Fprintf(&b, "class %s implements Namespace {\n", n.Name)
+		oplParamType = nil
+		if c.AnnotateTraverse {
+			cur := n
+			oplParamType = func(rel string) string {
+				if r := cur.FindRel(rel); r != nil && len(r.Types) > 0 {
+					return r.Types[0].NS
+				}
+				return ""
+			}
+		}
 		var plain, perms []*RelDef
 		for _, r := range n.Rels {
 			if r.Rewrite == nil {
